@@ -12,11 +12,14 @@ Facets
 ``merge``    dd.merge / DataFrame.merge / DataFrame.join; how in inner/left/right/outer/
              leftsemi; keys: ``on`` (1-2 columns), ``left_on/right_on``, both indexes,
              column-index mixtures, ``on`` naming the index, default keys (shared
-             columns); key dtypes int/str/float/categorical/datetime and int-vs-float;
-             duplicates (many-to-many), keys missing on either side, NA keys (NaN, None);
+             columns); key dtypes int/str/float/categorical (column forms)/datetime and
+             int-vs-float; duplicates (many-to-many), keys missing on either side, NA keys
+             (NaN, None);
              suffixes, indicator, broadcast (None/True/False/float), shuffle_method
              (None/tasks/disk), ``npartitions=``; 1..6 partitions per side incl. empty
-             partitions; known and unknown divisions.
+             partitions; known and unknown divisions; optionally a pandas right operand, and
+             optionally a SECOND merge of the result on the same key (the planner may reuse
+             the partitioning of the first join).
 ``asof``     dd.merge_asof: direction, tolerance, by, allow_exact_matches, on a sorted
              column or on sorted indexes with known divisions.
 ``concat0``  dd.concat axis=0: 2-3 DataFrames/Series with different column sets, join,
@@ -32,8 +35,8 @@ columns, NaN last).  The index takes part in the comparison only where it carrie
 meaning: joins of index with index, merge_asof on indexes, concat.  A column merge
 yields a fresh RangeIndex in pandas and partition-local indexes in dask.
 Row *order* is compared as a separately labelled facet (symptom ``order``) only
-where both promise it: index-index joins with known divisions on both sides,
-merge_asof (one row per left row, in left order), concat axis=0 without
+where both promise it: index-index joins with known divisions on both sides (the result
+is sorted by the index whenever the pandas result is), merge_asof (one row per left row, in left order), concat axis=0 without
 interleaving (partition order = input order), concat axis=1 with identical indexes.
 
 Labels
@@ -51,7 +54,10 @@ False alarms corrected (the check, not dask, was wrong):
 * index-index joins with known divisions: comparing the full row order with pandas alarmed on
   many-to-many duplicate index labels (exhaustive block, ``how=inner``: pandas itself does not return
   such a join sorted; its order comes from ``Index.join``).  The promise is "sorted by the index":
-  the order facet now demands a monotonic result index whenever the pandas result index is monotonic.
+  the order facet now demands a monotonic result index whenever the pandas result index is monotonic,
+  and only when no key is duplicated on BOTH sides: for a many-to-many key pandas' own row order is an
+  artefact of its join kernel and differs between the whole frame and a partition of it (thorough run:
+  ``on=<index name>``, how=inner, last partition came back as 16,16,..,19,19,..,16,16 from pandas itself).
 * the shared classifier keys on the word "index" and called a wrong value in a key column an index
   difference for column merges (``check_index=False``); the symptom is now derived by comparing
   again without the index (and without names).
@@ -473,6 +479,22 @@ def _root(ex):
     return best
 
 
+def _plan_bj(coll):
+    """class names of the lowered plan + partition counts (left, right) of its first BroadcastJoin node."""
+    try:
+        nodes = list(coll.optimize(fuse=False).expr.walk())
+    except Exception:  # noqa: BLE001  (observability only; compute decides)
+        return [], None
+    bj = None
+    for x in nodes:
+        if type(x).__name__ == "BroadcastJoin":
+            try:
+                bj = (x.left.npartitions, x.right.npartitions)
+            except Exception:  # noqa: BLE001
+                bj = None
+    return sorted({type(x).__name__ for x in nodes}), bj
+
+
 def _plan(coll):
     try:
         return sorted({type(x).__name__ for x in coll.optimize(fuse=False).expr.walk()})
@@ -572,6 +594,7 @@ def _merge_features(case, L, R, lddf, rddf, plan, kw):
     f["empty-partition-r"] = _has_empty_partition(case["rpart"], len(R), rddf) if hasattr(rddf, "npartitions") else False
     f["right-is-pandas"] = isinstance(rddf, pd.DataFrame)
     f["chain"] = case.get("chain", {}).get("how")
+    f["broadcast-join-partition-counts"] = case.get("_bj")
     return f
 
 
@@ -621,9 +644,10 @@ def _merge_pred(case, f):
         nl, nr, npart = f.get("nl", 0), f.get("nr", 0), case["npart"]
         bside = "left" if nl < nr else "right"
         flipped = False
-        if f.get("broadcast-join") and npart is not None:
-            # Merge._lower repartitions the non-broadcast side to ``npartitions``; BroadcastJoin derives the side again
-            bside2 = ("left" if nl < npart else "right") if bside == "left" else ("left" if npart < nr else "right")
+        if f.get("broadcast-join") and npart is not None and case.get("_bj"):
+            # Merge._lower repartitions the non-broadcast side to ``npartitions`` (Repartition may give fewer than
+            # asked); BroadcastJoin derives the side again from the counts it sees (read from the lowered plan)
+            bside2 = "left" if case["_bj"][0] < case["_bj"][1] else "right"
             flipped, bside = bside2 != bside, bside2
         # (``on=<index name>`` reaches the split as a name and is resolved there; left_index/right_index arrive as None)
         other_on_index = form == "ii" or (form == "ic" and bside == "right") or (form == "ci" and bside == "left")
@@ -701,7 +725,8 @@ def _run_merge(case, ctx):
             ch = case["chain"]
             coll = coll.merge(frames.partition(R2, ch["part"]), on="k", how=ch["how"],
                               **({"shuffle_method": ch["shuffle"]} if ch["shuffle"] else {}))
-        plan = _plan(coll)
+        plan, bj = _plan_bj(coll)
+        case = dict(case, _bj=bj)
         result = coll.compute(scheduler="sync")
     except NotImplementedError as ex:
         ctx.unsupported("merge: %s" % ex)
@@ -712,7 +737,8 @@ def _run_merge(case, ctx):
         return
     f = _merge_features(case, L, R, lddf, rddf, plan, kw)
     both_index = bool(kw.get("left_index") and kw.get("right_index")) or form == "oi"
-    ordered = "sorted-by-index" if (both_index and f["known-l"] and f["known-r"] and how != "leftsemi") else False
+    ordered = "sorted-by-index" if (both_index and f["known-l"] and f["known-r"] and how != "leftsemi"
+                                    and f["many-to-many"] is False) else False
     ctx.count("merge_compared")
     ctx.count("merge_how_" + how)
     if f["broadcast-join"]:
@@ -741,7 +767,7 @@ def _run_merge(case, ctx):
     ctx.distinct("merge_programs", (form, how, case["kd"], api, case["suffixes"], bool(case["indicator"]),
                                     case["broadcast"], case["shuffle"], case["npart"]))
     ctx.nontrivial = len(L) >= 2 and len(R) >= 2 and len(expected) >= 1 and max(f["nl"], f["nr"]) >= 2
-    ctx.sig = {k: v for k, v in case.items() if k != "space"}
+    ctx.sig = {k: v for k, v in case.items() if k not in ("space", "_bj")}
     _judge(ctx, "merge", _merge_pred(case, f), result, expected, check_index=both_index, ordered=ordered,
            detail={"features": f, "kw": repr(kw), "extra": extra})
     ctx.sample = {"facet": "merge", "form": form, "how": how, "kd": case["kd"], "rows": [len(L), len(R), len(expected)],
